@@ -87,6 +87,11 @@ def _(M, a, c): return Ref(V(a[0]).d['mutex'].d['slot'], 0)
 @model_re(r'^HashMap::new$|^HashSet::new$')
 def _(M, a, c): return Native('HashMap', m={})
 def skey(s):
+    k0 = deref_all(s) if isinstance(s, Ref) else s
+    if isinstance(k0, Int):
+        if k0.sym(): raise Unsupported("symbolic integer map key")
+        return ('int', k0.v)
+    if isinstance(k0, bool): return ('bool', k0)
     s = as_slice(s)
     if isinstance(s, Ref): s = as_slice(s.load())
     bs = s.items()
@@ -594,7 +599,7 @@ def _(M, a, c):
 def _(M, a, c): return a[0].fields[0] if a[0].variant == 1 else a[1]
 
 # ---- maps
-def sorted_items(m): return [m[k] for k in sorted(m)]
+def sorted_items(m): return [m[k] for k in sorted(m, key=lambda k: (0, k) if isinstance(k, bytes) else (1, repr(k)))]
 @model_re(r'^BTreeMap::new$')
 def _(M, a, c): return Native('BTreeMap', m={})
 @model_re(r'^BTreeMap::len$')
@@ -835,8 +840,20 @@ def _(M, a, c):
 
 # demonic iteration order for hash containers: fork over permutations (hash seed = symbolic input)
 FORK_CHOICE = {'n': 0}
+DEMONIC_FULL = 4
 def demonic_perm(M, items):
     items = list(items); out = []
+    if len(items) > DEMONIC_FULL:
+        # more than DEMONIC_FULL! orders: a bounded set of representative orders (each is a possible hash order, so a difference found
+        # is real; agreement on these is a bounded claim): identity, reverse, two rotations, odd-even interleave
+        n = len(items)
+        cands = [items, items[::-1], items[1:] + items[:1], items[n // 2:] + items[:n // 2], items[1::2] + items[0::2], items[::2][::-1] + items[1::2]]
+        FORK_CHOICE['n'] += 1
+        sel = z3.BitVec('hashorder%d' % FORK_CHOICE['n'], 8)
+        M.assume(z3.ULT(sel, len(cands)))
+        for j in range(len(cands)):
+            if M.branch(sel == j): return cands[j]
+        return cands[0]
     while len(items) > 1:
         # choose which element comes next: a fresh symbolic selector per choice point
         FORK_CHOICE['n'] += 1
